@@ -267,6 +267,13 @@ type world struct {
 
 func (w *world) now() time.Duration { return time.Since(w.start) }
 
+// macOf is the hardware address the interface has while connection id is current.
+func (w *world) macOf(id int) net.HardwareAddr {
+	m := append(net.HardwareAddr(nil), w.mac...)
+	m[5] = byte(1 + id)
+	return m
+}
+
 func (w *world) conn() *fconn {
 	w.mu.Lock()
 	defer w.mu.Unlock()
@@ -308,7 +315,12 @@ func newWorld(ifis []config.Interface, fwd bool) *world {
 					return nil, err
 				}
 			}
-			return &net.Interface{Index: 1, Name: name, HardwareAddr: w.mac, Flags: net.FlagUp, MTU: 1500}, nil
+			// Every (re-)dial sees the interface with a different hardware address, so
+			// that state bound to the interface at an earlier dial is visible.
+			w.mu.Lock()
+			mac := w.macOf(len(w.conns))
+			w.mu.Unlock()
+			return &net.Interface{Index: 1, Name: name, HardwareAddr: mac, Flags: net.FlagUp, MTU: 1500}, nil
 		},
 		func(*net.Interface, func() ([]net.Addr, error)) error { return nil },
 		func(ifi *net.Interface) (system.VerifNDPConn, netip.Addr, error) {
